@@ -204,7 +204,7 @@ func (s *c17Sched) stackOf(gid uint64) string {
 	var fns []string
 	for _, ln := range strings.Split(string(b), "\n")[1:] {
 		if !strings.HasPrefix(ln, "\t") && ln != "" {
-			if k := strings.IndexByte(ln, '('); k > 0 {
+			if k := strings.LastIndexByte(ln, '('); k > 0 {
 				ln = ln[:k]
 			}
 			fns = append(fns, ln[strings.LastIndexByte(ln, '/')+1:])
